@@ -1,3 +1,123 @@
 import UvModel.StreamR
+import UvModel.Lemmas.StreamRLemmas
+/-! C06 — stream reads.  Every theorem is about `exec u init ops`: any main program `ops`
+    (uv_read_start/stop, uv_close, loop iterations with arbitrary epoll events and arbitrary
+    read(2) outcome lists, peer writes / shutdown), any user `u` (alloc_cb sizes or refusals per
+    call, read_cb scripts of stop/start/close per call).  Events in the trace: see `StreamR.Ev`. -/
 namespace UvModel.Props.C06
+open UvModel.StreamR
+
+def EOFcb (e : Ev) : Prop := ∃ buf b, e = .readCb UV_EOF buf b
+/-- a read_cb that reports a read error (negative nread other than the UV_ENOBUFS of a refusal) or UV_EOF -/
+def EndCb (e : Ev) : Prop := ∃ n buf b, e = .readCb n buf b ∧ n < 0 ∧ n ≠ UV_ENOBUFS
+def StopEv (e : Ev) : Prop := EndCb e ∨ e = .ret .stop 0 ∨ e = .ret .close 0
+def IsCb (e : Ev) : Prop := (∃ id sz, e = .alloc id sz) ∨ (∃ n buf b, e = .readCb n buf b)
+
+/-- Conservation: at any time, what the peer wrote = what read_cb received (in callback order)
+    followed by what is still in the kernel buffer.  Nothing lost, duplicated or reordered, for every
+    alloc size sequence, stop/start pattern, chunking, EAGAIN/EINTR/short-read schedule. -/
+theorem delivered_is_prefix_in_order (u : User) (ops : List Op) :
+    sent (exec u init ops).trace = delivered (exec u init ops).trace ++ (exec u init ops).kbuf := by
+  have h := coupled_exec u ops init coupled_init
+  have := h.cons
+  rwa [mon_sent, mon_deliv] at this
+
+theorem delivered_prefix (u : User) (ops : List Op) :
+    delivered (exec u init ops).trace <+: sent (exec u init ops).trace :=
+  ⟨_, (delivered_is_prefix_in_order u ops).symm⟩
+
+/-- When UV_EOF is reported with an alloc'd buffer (read(2) returned 0), the peer had shut down
+    and everything it wrote had already been delivered. -/
+theorem delivered_all_at_eof (u : User) (ops : List Op) (pre post : List Ev) (id : Nat) (b : List Byte)
+    (hs : (exec u init ops).trace = pre ++ .readCb UV_EOF (some id) b :: post) :
+    delivered pre = sent pre ∧ Ev.peerShut ∈ pre := by
+  have h := (coupled_exec u ops init coupled_init).okEof
+  rw [hs, mon_split] at h
+  have h1 := fold_okEof _ _ h
+  simp [Mon.step, mon_deliv, mon_sent] at h1
+  refine ⟨h1.2.1, ?_⟩
+  have := fold_shut pre {} (by simpa [mon] using h1.2.2)
+  simpa using this
+
+/-- Every alloc_cb is immediately followed by the read_cb that carries its buffer
+    (whatever nread is: data, 0, UV_ENOBUFS, error, UV_EOF). -/
+theorem alloc_paired (u : User) (ops : List Op) (pre post : List Ev) (id sz : Nat)
+    (hs : (exec u init ops).trace = pre ++ .alloc id sz :: post) :
+    ∃ n bytes post', post = .readCb n (some id) bytes :: post' := by
+  have hc := coupled_exec u ops init coupled_init
+  have h := hc.okPair
+  have hp := hc.pend
+  rw [hs, mon_split] at h hp
+  cases post with
+  | nil => simp [Mon.step] at hp
+  | cons e post' =>
+    simp only [List.foldl_cons] at h
+    have h1 := fold_okPair _ _ h
+    cases e <;> simp [Mon.step] at h1
+    case readCb n buf bytes => exact ⟨n, bytes, post', by rw [h1.2]⟩
+
+/-- alloc ids are the call numbers 0,1,2,…: no buffer id is handed out twice -/
+def allocCount : List Ev → Nat
+  | [] => 0
+  | .alloc _ _ :: t => allocCount t + 1
+  | _ :: t => allocCount t
+
+theorem fold_nAl (l : List Ev) : ∀ m : Mon, (l.foldl Mon.step m).nAl = m.nAl + allocCount l := by
+  induction l with
+  | nil => intro m; simp [allocCount]
+  | cons e t ih => intro m; cases e <;> simp [ih, Mon.step, allocCount] <;> omega
+
+theorem alloc_ids_fresh (u : User) (ops : List Op) (pre post : List Ev) (id sz : Nat)
+    (hs : (exec u init ops).trace = pre ++ .alloc id sz :: post) : id = allocCount pre := by
+  have h := (coupled_exec u ops init coupled_init).okPair
+  rw [hs, mon_split] at h
+  have h1 := fold_okPair _ _ h
+  simp [Mon.step] at h1
+  rw [h1.2]
+  simpa [mon] using fold_nAl pre {}
+
+/-- …and a read_cb carries an alloc'd buffer only directly after that alloc_cb: with `alloc_paired`
+    and `alloc_ids_fresh`, each buffer is handed back exactly once. -/
+theorem readcb_buffer_from_preceding_alloc (u : User) (ops : List Op) (pre post : List Ev) (n : Int) (id : Nat)
+    (b : List Byte) (hs : (exec u init ops).trace = pre ++ .readCb n (some id) b :: post) :
+    ∃ pre' sz, pre = pre' ++ [.alloc id sz] := by
+  have h := (coupled_exec u ops init coupled_init).okPair
+  rw [hs, mon_split] at h
+  have h1 := fold_okPair _ _ h
+  rcases List.eq_nil_or_concat pre with hp | ⟨pre', e, hp⟩
+  · subst hp; simp [Mon.step, mon] at h1
+  · subst hp
+    rw [List.concat_eq_append] at h1 ⊢
+    rw [mon_snoc] at h1
+    cases e <;> simp [Mon.step] at h1
+    case alloc id' sz' => exact ⟨pre', sz', by rw [h1.2]⟩
+    all_goals (obtain ⟨⟨h2, h3⟩, h4⟩ := h1; rw [h3] at h4; simp at h4)
+
+/-- After UV_EOF, a read error, uv_read_stop or uv_close, no alloc_cb / read_cb happens until a
+    uv_read_start succeeds. -/
+theorem quiet_after_eof_error_stop (u : User) (ops : List Op) (pre mid post : List Ev) (q c : Ev)
+    (hs : (exec u init ops).trace = pre ++ q :: (mid ++ c :: post)) (hq : StopEv q) (hcb : IsCb c) :
+    Ev.ret .start 0 ∈ mid := by
+  have h := (coupled_exec u ops init coupled_init).okQuiet
+  rw [hs, mon_split, List.foldl_append, List.foldl_cons] at h
+  have h1 := fold_okQuiet _ _ h
+  have hq1 : ((mon pre).step q).quiet = true := by
+    rcases hq with ⟨n, buf, b, rfl, hn, hne⟩ | rfl | rfl
+    · simp [Mon.step, quieting, hn, hne]
+    · simp [Mon.step]
+    · simp [Mon.step]
+  have hq2 : (mid.foldl Mon.step ((mon pre).step q)).quiet = false := by
+    rcases hcb with ⟨id, sz, rfl⟩ | ⟨n, buf, b, rfl⟩ <;> simp [Mon.step] at h1 <;> exact h1.2
+  exact fold_quiet mid _ hq1 hq2
+
+/-- UV_EOF is reported at most once per reading session: between two UV_EOF callbacks the user
+    restarted reading (and by `delivered_all_at_eof` it comes only after all data). -/
+theorem eof_once_after_data (u : User) (ops : List Op) (pre mid post : List Ev) (e1 e2 : Ev)
+    (hs : (exec u init ops).trace = pre ++ e1 :: (mid ++ e2 :: post)) (h1 : EOFcb e1) (h2 : EOFcb e2) :
+    Ev.ret .start 0 ∈ mid := by
+  obtain ⟨buf1, b1, rfl⟩ := h1
+  obtain ⟨buf2, b2, rfl⟩ := h2
+  exact quiet_after_eof_error_stop u ops pre mid post _ _ hs
+    (Or.inl ⟨_, _, _, rfl, by decide, by decide⟩) (Or.inr ⟨_, _, _, rfl⟩)
+
 end UvModel.Props.C06
